@@ -370,12 +370,20 @@ func (r *vfC15Run) checkDelivery(rt *rapid.T, vf *vfCollector) (mixed bool) {
 					mixed = true
 				}
 				if len(copies) == 0 {
+					// which of the two known defects can explain the miss (the harness cannot see which
+					// entry findSubscribers kept, nor the visit order of the fan-out loop)
 					var cands []string
-					if lower {
-						cands = append(cands, vfC15KeyOverlap)
-					}
-					if r.lowerElsewhere(i, m.Topic, m.QoS) {
-						cands = append(cands, vfC15KeyFanout)
+					elsewhere := r.lowerElsewhere(i, m.Topic, m.QoS)
+					switch {
+					case lower && elsewhere:
+						cands = []string{vfC15KeyFanout, vfC15KeyOverlap}
+						vf.Class("missed:explained-by-either-known-defect")
+					case lower:
+						cands = []string{vfC15KeyOverlap}
+						vf.Class("missed:explained-only-by-overlapping-filters")
+					case elsewhere:
+						cands = []string{vfC15KeyFanout}
+						vf.Class("missed:explained-only-by-fanout-abort")
 					}
 					handled := false
 					for _, key := range cands {
